@@ -137,6 +137,20 @@ func TestC06Wait(t *testing.T) {
 					plan[k] = 3 // owes nothing; must not disturb the deliveries of the live publishes around it
 				}
 			}
+			if i%4 == 1 {
+				// synchronous Once handlers keep being subscribed in front of the async ones: each is taken
+				// out of the registry by the next publish while other publishes are part-way through
+				for k := range plan {
+					if plan[k] == 0 && rng.IntN(3) == 0 {
+						plan[k] = 5
+					}
+				}
+			}
+			if i%6 == 5 && g == 0 {
+				// the registry is cleared while deliveries are still queued / running: what was owed to
+				// publishes that had returned before the Clear began is still owed
+				plan = append(plan, 4)
+			}
 			plan = append(plan, 1)
 			ctxPub := rng.IntN(2) == 0
 			wg.Add(1)
@@ -155,6 +169,17 @@ func TestC06Wait(t *testing.T) {
 						continue
 					}
 					tt := int(w.NextEID()) % nT
+					if x == 5 {
+						w.Subscribe(g, &conc.Reg{T: tt, Class: 11, Once: true})
+						w.Publish(g, tt, nil)
+						continue
+					}
+					if x == 4 {
+						for c := 0; c < nT; c++ {
+							w.Clear(g, c)
+						}
+						continue
+					}
 					if x == 3 {
 						id := w.NextEID()
 						dead.Store(id, true)
@@ -216,11 +241,22 @@ func checkWait(run *vk.Run, w *conc.World, caseNo, procs int, dead *sync.Map) (s
 			phExit[e.EID] = append(phExit[e.EID], e.St)
 		}
 	}
+	firstClear := map[int]uint64{} // type -> call stamp of the first Clear of it
+	for _, e := range w.Log {
+		if e.K == "clear" {
+			if c, seen := firstClear[e.T]; !seen || e.Call < c {
+				firstClear[e.T] = e.Call
+			}
+		}
+	}
 	owed := func(eid uint64) (l [][2]uint64) {
 		if _, isDead := dead.Load(eid); isDead {
 			return nil
 		}
 		p := h.Pubs[eid]
+		if c, cleared := firstClear[p.T]; cleared && !(p.Ret < c) {
+			return nil // published while / after its type was being cleared: nothing is owed for certain
+		}
 		for _, r := range w.Regs {
 			if r.T == p.T && r.Async && (!r.Filter || eid%2 == 0) {
 				l = append(l, [2]uint64{uint64(r.ID), eid})
